@@ -364,7 +364,60 @@ pub fn c16_cases(rng: &mut Rng, tier: &str, out: &mut Out) {
 /// C12 through the command-line extractor: archives of MANY interleaved files (more than the
 /// extractor's pool of open file writers) extracted in the whole-archive (linear) form must give
 /// each file exactly the bytes per-file reading gives.
+/// Linear extraction by `mlar extract` while the OUTPUT fails: a file-size limit of 1 KiB (sh `ulimit -f 2`, SIGXFSZ
+/// ignored) makes every write beyond the first KiB of an output file fail with EFBIG. "Delivers to each chosen file
+/// exactly the bytes": a run that exits with status 0 must have written every member in full; with members longer
+/// than the limit the command has to fail. Members below 8 KiB matter: a buffered writer would only meet the fault
+/// when it is dropped.
+pub fn c12_fault_cases(_rng: &mut Rng, _tier: &str, out: &mut Out) {
+    use mla::ArchiveWriter;
+    let work = std::env::current_dir().unwrap();
+    for (k, sizes) in [vec![6000usize, 10], vec![100, 3000, 1025], vec![20_000, 5]].into_iter().enumerate() {
+        let mut cfg = ArchiveWriterConfig::new();
+        cfg.set_layers(Layers::EMPTY);
+        let mut w = ArchiveWriter::from_config(Vec::new(), cfg).expect("writer");
+        let mut contents: Vec<(String, Vec<u8>)> = Vec::new();
+        for (i, sz) in sizes.iter().enumerate() {
+            let data: Vec<u8> = (0..*sz).map(|j| (j * 7 + i) as u8).collect();
+            let name = format!("m{i}.bin");
+            w.add_file(&name, data.len() as u64, data.as_slice()).unwrap();
+            contents.push((name, data));
+        }
+        w.finalize().unwrap();
+        let archive = w.into_raw();
+        let sb = work.join(format!("c12fault{k}"));
+        let _ = fs::remove_dir_all(&sb);
+        fs::create_dir_all(&sb).unwrap();
+        fs::write(sb.join("a.mla"), &archive).unwrap();
+        let script = format!("trap '' XFSZ; ulimit -f 2; exec \"$0\" extract -i a.mla -o out");
+        let o = Command::new("sh").current_dir(&sb).arg("-c").arg(&script).arg(mlar_bin()).output().expect("run sh");
+        let mut msg: Option<String> = None;
+        if o.status.success() {
+            for (name, data) in &contents {
+                let got = fs::read(sb.join("out").join(name)).unwrap_or_default();
+                if &got != data {
+                    msg = Some(format!("mlar extract under a 1 KiB file-size limit exits with status 0, and {name} holds {} of its {} bytes", got.len(), data.len()));
+                    break;
+                }
+            }
+        }
+        let _ = fs::remove_dir_all(&sb);
+        out.case(&Case {
+            id: format!("c12-fault-{k}"),
+            model_fn: "",
+            args: vec![],
+            imp: json!([]),
+            oracle_ok: msg.is_none(),
+            oracle_msg: msg.unwrap_or_default(),
+            class: format!("extract output-fault status_ok={}", o.status.success()),
+            nontrivial: true,
+            meta: json!({"sizes": sizes, "exit": o.status.code()}),
+        });
+    }
+}
+
 pub fn c12_cli_cases(rng: &mut Rng, tier: &str, out: &mut Out) {
+    c12_fault_cases(rng, tier, out);
     use mla::ArchiveWriter;
     let counts: Vec<usize> = if tier == "thorough" { vec![3, 999, 1000, 1001, 1500, 2500] } else { vec![3, 1001, 1300] };
     let work = std::env::current_dir().unwrap();
@@ -460,7 +513,61 @@ fn snapshot_rows(status_ok: bool, snap: &BTreeMap<Vec<u8>, (u8, Vec<u8>)>) -> Ve
     rows
 }
 
+/// Second defence of `create_file` (the canonical parent must be BENEATH the canonical output directory) against a
+/// sibling whose name merely EXTENDS the output directory's name: `restore/latest -> ../restore-old`. "Beneath" is a
+/// comparison of path components, not of bytes. Oracle only (the model's sandbox layout is the one of c16-symlink).
+pub fn c16_prefix_cases(_rng: &mut Rng, _tier: &str, out: &mut Out) {
+    let work = std::env::current_dir().unwrap();
+    let mut k = 0;
+    for (outdir, sibling) in [("restore", "restore-old"), ("o", "o2"), ("out", "out.bak")] {
+        for form in [0u64, 2] {
+            let mut names: Vec<Vec<u8>> = vec![b"latest/report.txt".to_vec(), b"latest/new.txt".to_vec(), b"zz_benign".to_vec()];
+            names.sort();
+            let order: Vec<usize> = (0..names.len()).collect();
+            let Ok(archive) = build_named_archive(&names, &order) else { continue };
+            let sb = work.join(format!("px{k}"));
+            let _ = fs::remove_dir_all(&sb);
+            fs::create_dir_all(sb.join(sibling)).unwrap();
+            fs::write(sb.join(sibling).join("report.txt"), b"old report").unwrap();
+            fs::create_dir_all(sb.join(outdir)).unwrap();
+            std::os::unix::fs::symlink(format!("../{sibling}"), sb.join(outdir).join("latest")).unwrap();
+            fs::write(sb.join("a.mla"), &archive).unwrap();
+            let before = snapshot(&sb);
+            let mut cmd = Command::new(mlar_bin());
+            cmd.current_dir(&sb).arg("extract").arg("-i").arg("a.mla").arg("-o").arg(outdir);
+            if form == 2 {
+                cmd.arg("--").arg("latest/report.txt").arg("latest/new.txt");
+            }
+            let o = cmd.output().expect("run mlar");
+            let after = snapshot(&sb);
+            let inside = |p: &Vec<u8>| p == outdir.as_bytes() || p.starts_with(format!("{outdir}/").as_bytes());
+            let mut bad: Vec<String> = Vec::new();
+            for (p, v) in &after {
+                if inside(p) || before.get(p) == Some(v) || v.0 == 1 {
+                    continue;
+                }
+                bad.push(format!("{} {}", String::from_utf8_lossy(p), if before.contains_key(p) { "modified" } else { "created" }));
+            }
+            let _ = fs::remove_dir_all(&sb);
+            let msg = if bad.is_empty() { None } else { Some(format!("output directory {outdir:?} holding a link to its sibling {sibling:?}: extraction wrote outside the output directory: {}", bad.join(", "))) };
+            out.case(&Case {
+                id: format!("c16-prefix-{k}"),
+                model_fn: "",
+                args: vec![],
+                imp: json!([]),
+                oracle_ok: msg.is_none(),
+                oracle_msg: msg.unwrap_or_default(),
+                class: format!("sibling-name-extends-output-dir form={form} status_ok={}", o.status.success()),
+                nontrivial: true,
+                meta: json!({"outdir": outdir, "sibling": sibling, "form": form}),
+            });
+            k += 1;
+        }
+    }
+}
+
 pub fn c16_symlink_cases(rng: &mut Rng, tier: &str, out: &mut Out) {
+    c16_prefix_cases(rng, tier, out);
     let work = std::env::current_dir().unwrap();
     let targets: Vec<&str> = vec![
         "link/x", "link/keep.txt", "link/sub/escaped.txt", "link/sub/deeper/e2.txt", "deep/l2/y", "deep/l2/new/z", "flink",
